@@ -1,10 +1,10 @@
 package adapt
 
 import (
-	"sync/atomic"
-	"time"
 	"context"
 	"errors"
+	"sync/atomic"
+	"time"
 
 	"github.com/aws/aws-sdk-go-v2/aws"
 	v2ddb "github.com/aws/aws-sdk-go-v2/service/dynamodb"
@@ -55,13 +55,13 @@ func v2CreateInput(spec *TableSpec) *v2ddb.CreateTableInput {
 		if ix.Local {
 			in.LocalSecondaryIndexes = append(in.LocalSecondaryIndexes, v2types.LocalSecondaryIndex{
 				IndexName: aws.String(ix.Name), KeySchema: v2KeySchema(ix.Hash, ix.Range),
-				Projection: &v2types.Projection{ProjectionType: v2types.ProjectionTypeAll},
+				Projection: v2Projection(ix),
 			})
 			continue
 		}
 		g := v2types.GlobalSecondaryIndex{
 			IndexName: aws.String(ix.Name), KeySchema: v2KeySchema(ix.Hash, ix.Range),
-			Projection: &v2types.Projection{ProjectionType: v2types.ProjectionTypeAll},
+			Projection: v2Projection(ix),
 		}
 		if spec.Throughput {
 			g.ProvisionedThroughput = v2Throughput()
@@ -69,6 +69,18 @@ func v2CreateInput(spec *TableSpec) *v2ddb.CreateTableInput {
 		in.GlobalSecondaryIndexes = append(in.GlobalSecondaryIndexes, g)
 	}
 	return in
+}
+
+func v2Projection(ix IndexSpec) *v2types.Projection {
+	return &v2types.Projection{ProjectionType: v2types.ProjectionType(ix.ProjType()), NonKeyAttributes: append([]string(nil), ix.NonKey...)}
+}
+
+func v2ProjDesc(id *IndexDesc, p *v2types.Projection) {
+	if p == nil {
+		return
+	}
+	id.Proj = string(p.ProjectionType)
+	id.NonKey = append(id.NonKey, p.NonKeyAttributes...)
 }
 
 func v2Desc(d *v2types.TableDescription) *Desc {
@@ -85,6 +97,7 @@ func v2Desc(d *v2types.TableDescription) *Desc {
 	}
 	for _, g := range d.GlobalSecondaryIndexes {
 		id := IndexDesc{Name: aws.ToString(g.IndexName), Count: aws.ToInt64(g.ItemCount), HasCnt: g.ItemCount != nil}
+		v2ProjDesc(&id, g.Projection)
 		for _, k := range g.KeySchema {
 			if k.KeyType == v2types.KeyTypeHash {
 				id.Hash = aws.ToString(k.AttributeName)
@@ -96,6 +109,7 @@ func v2Desc(d *v2types.TableDescription) *Desc {
 	}
 	for _, g := range d.LocalSecondaryIndexes {
 		id := IndexDesc{Name: aws.ToString(g.IndexName), Local: true, Count: aws.ToInt64(g.ItemCount), HasCnt: g.ItemCount != nil}
+		v2ProjDesc(&id, g.Projection)
 		for _, k := range g.KeySchema {
 			if k.KeyType == v2types.KeyTypeHash {
 				id.Hash = aws.ToString(k.AttributeName)
@@ -177,7 +191,7 @@ func (c *V2) Do(op Op) (out Outcome) {
 		}
 		return o
 	case OpUpdate:
-		in := &v2ddb.UpdateItemInput{TableName: aws.String(op.Table), Key: ItemToV2(op.Key), UpdateExpression: aws.String(op.Update),
+		in := &v2ddb.UpdateItemInput{TableName: aws.String(op.Table), Key: ItemToV2(op.Key), UpdateExpression: updExpr(op),
 			ConditionExpression: strp(op.Cond), ExpressionAttributeNames: op.Names, ExpressionAttributeValues: ItemToV2(op.Values)}
 		if op.RetCCF {
 			in.ReturnValuesOnConditionCheckFailure = v2types.ReturnValuesOnConditionCheckFailureAllOld
@@ -235,6 +249,7 @@ func (c *V2) Do(op Op) (out Outcome) {
 				o.Items = v2Items(res.Items)
 				o.Count = int64(res.Count)
 				o.LastKey = NormalizeEmpty(ItemFromV2(res.LastEvaluatedKey))
+				o.LastKeyEmpty = res.LastEvaluatedKey != nil && len(res.LastEvaluatedKey) == 0
 			}
 		}
 		return o
@@ -259,6 +274,7 @@ func (c *V2) Do(op Op) (out Outcome) {
 				o.Items = v2Items(res.Items)
 				o.Count = int64(res.Count)
 				o.LastKey = NormalizeEmpty(ItemFromV2(res.LastEvaluatedKey))
+				o.LastKeyEmpty = res.LastEvaluatedKey != nil && len(res.LastEvaluatedKey) == 0
 			}
 		}
 		return o
@@ -365,7 +381,7 @@ func (c *V2) Do(op Op) (out Outcome) {
 				}
 				u.Create = &v2types.CreateGlobalSecondaryIndexAction{IndexName: aws.String(ch.Create.Name),
 					KeySchema:  v2KeySchema(ch.Create.Hash, ch.Create.Range),
-					Projection: &v2types.Projection{ProjectionType: v2types.ProjectionTypeAll}, ProvisionedThroughput: v2Throughput()}
+					Projection: v2Projection(*ch.Create), ProvisionedThroughput: v2Throughput()}
 			}
 			if ch.Delete != "" {
 				u.Delete = &v2types.DeleteGlobalSecondaryIndexAction{IndexName: aws.String(ch.Delete)}
